@@ -235,10 +235,43 @@ def harness_c15(tier, seed):
             placed = int((y > 0).sum())
             viol.append(("decode-vs-earliest-slot-reference/long-tournament", {"n": n, "rounds": rounds, "days": days},
                          f"{placed} games scheduled, reference schedules {int((ref > 0).sum())}"))
+    # ---- many teams: every n from 11 to 130 (thorough: 200), one round, the sorted blueprint and one shuffled permutation,
+    # against a vectorised earliest-slot reference (integer arithmetic only)
+    def ref_fast(x, days, n):
+        y = np.zeros((days, n), np.int64)
+        for g in x:
+            g = int(g)
+            home = (g // (n - 1)) % n
+            away = g % (n - 1)
+            if away >= home:
+                away += 1
+            free = np.flatnonzero((y[:, home] == 0) & (y[:, away] == 0))
+            if len(free):
+                y[free[0], home] = away + 1
+                y[free[0], away] = -(home + 1)
+        return y
+    for n in range(11, 131 if tier == "quick" else 201):
+        sp = search_space_for_n_and_rounds(n, 1)
+        games = [int(v) for v in sp.blueprint]
+        days = n - 1 if n % 2 == 0 else n
+        for shuffled in (False, True):
+            x = games[:]
+            if shuffled:
+                rng.shuffle(x)
+            y = np.full((days, n), 99, np.int8 if n <= 127 else np.int16)
+            map_games(np.array(x, dtype=sp.dtype), y)
+            ref = ref_fast(x, days, n)
+            evals += 1
+            distinct += 1
+            if not np.array_equal(y, ref):
+                dd, tt = np.argwhere(y != ref)[0]
+                viol.append(("decode-vs-earliest-slot-reference/many-teams", {"n": n, "rounds": 1, "shuffled": shuffled, "seed": seed},
+                             f"first difference on day {dd}, team {tt}: got {int(y[dd, tt])}, reference {int(ref[dd, tt])}"))
+                break
     seen = set()
     viol = [v for v in viol if not (v[0] in seen or seen.add(v[0]))]
     return {"name": "ttp_game_encoding", "evaluations": evals, "distinct_nontrivial": distinct,
             "rule": f"search space composition for ALL 2 <= n <= {nmax}, 1 <= rounds <= {rmax} except (2,1) (exhaustive in that "
                     "range); map_games vs earliest-slot reference decoder and multiplicity clause on random permutations of "
-                    "the game multiset for n <= 10, rounds <= 3",
+                    "the game multiset for n <= 10, rounds <= 3; one-round tournaments of every n in 11..130 (sorted and shuffled permutation)",
             "samples": samples, "violations": viol, "exhaustive": True}
